@@ -254,6 +254,10 @@ VaState(a) ==    \* the va_list object at pointer a: [ok, pos] ; it must have be
        THEN [ok |-> TRUE, pos |-> cs[1].pos] ELSE [ok |-> FALSE]
 SetCells(m, b, o, new) == [m EXCEPT ![b].cells = [j \in 1..m[b].sz |-> IF j > o /\ j <= o + Len(new) THEN new[j - o] ELSE @[j]]]
 
+\* block parameter types: by value (blk, blk1 = INTEGER-class block in registers) of several sizes, and return blocks
+ByValTys == {"blk16", "blk1_16", "blk12", "blk20", "blk4"}
+BlkSz(ty) == CASE ty \in {"blk16", "blk1_16", "rblk16"} -> 16 [] ty = "blk12" -> 12 [] ty = "blk20" -> 20 [] ty = "blk4" -> 4 [] OTHER -> 0
+
 Step ==
   /\ status = "run"
   /\ steps' = steps + 1
@@ -420,12 +424,13 @@ Step ==
                               /\ UNCHANGED <<mem, status, why, result>>
             ELSE LET cf == IF I.callee.k = "reg" THEN RegVal(R, I.callee.r).f ELSE I.callee.f
                      g == prog.funcs[cf]
-                     byval == {r \in 1..Len(g.params) : g.params[r] \in {"blk16", "blk1_16"}}          \* blocks passed by value (at most one here)
+                     byval == {r \in 1..Len(g.params) : g.params[r] \in ByValTys}          \* blocks passed by value (at most one here)
                      byref == {r \in 1..Len(g.params) : g.params[r] = "rblk16"}
-                     blkbad == \E r \in byval \cup byref : args[r].t # "p" \/ ~InBlock(mem, args[r].b, args[r].o, 16)
-                     bv == IF byval = {} THEN 0 ELSE CHOOSE r \in byval : TRUE IN
+                     blkbad == \E r \in byval \cup byref : args[r].t # "p" \/ ~InBlock(mem, args[r].b, args[r].o, BlkSz(g.params[r]))
+                     bv == IF byval = {} THEN 0 ELSE CHOOSE r \in byval : TRUE
+                     bn == IF bv = 0 THEN 0 ELSE BlkSz(g.params[bv]) IN
                  IF Len(frames) >= 12 THEN GoUndef("call depth bound")
-                 ELSE IF blkbad THEN GoUndef("block argument is not the address of a live 16-byte block")
+                 ELSE IF blkbad THEN GoUndef("block argument is not the address of a live block of the parameter's size")
                  ELSE /\ frames' = Append(SetTop([Top EXCEPT !.ovf = NoOvf]),
                                           [f |-> cf, id |-> steps + 1, va |-> VaTail(I, g, args), pc |-> 1,
                                            regs |-> [r \in 1..Len(g.regty) |->
@@ -433,8 +438,8 @@ Step ==
                                                        ELSE IF r <= Len(g.params) THEN Narrow(g.params[r], args[r]) ELSE UndefV],
                                            base |-> Len(mem), ovf |-> NoOvf])
                       /\ mem' = IF bv = 0 THEN mem
-                                ELSE Append(mem, [sz |-> 16, live |-> TRUE,
-                                                  cells |-> SubSeq(mem[args[bv].b].cells, args[bv].o + 1, args[bv].o + 16)])
+                                ELSE Append(mem, [sz |-> bn, live |-> TRUE,      \* exactly the parameter's size is the callee's
+                                                  cells |-> SubSeq(mem[args[bv].b].cells, args[bv].o + 1, args[bv].o + bn)])
                       /\ UNCHANGED <<log, status, why, result>>
        [] op = "ret" ->
             LET vals == [i \in 1..Len(I.s) |-> Eval(R, mem, I.s[i])]
